@@ -90,6 +90,30 @@ pub fn sign_own(be: Be, sk: &[u8], msg: &[u8], f: &[u8], a: &[u8]) -> Option<Str
     })
 }
 
+/// the other valid ECDSA signature (r, n - s) of a v3.public token: the PASETO documents have no low-S rule, so both the token a
+/// signer emits and its twin are specification-conforming; returns the token text with the twin signature
+pub fn p384_twin(tok: &str) -> Option<String> {
+    const N: [u8; 48] = [
+        0xff, 0xff, 0xff, 0xff, 0xff, 0xff, 0xff, 0xff, 0xff, 0xff, 0xff, 0xff, 0xff, 0xff, 0xff, 0xff, 0xff, 0xff, 0xff, 0xff, 0xff, 0xff, 0xff, 0xff,
+        0xc7, 0x63, 0x4d, 0x81, 0xf4, 0x37, 0x2d, 0xdf, 0x58, 0x1a, 0x0d, 0xb2, 0x48, 0xb0, 0xa7, 0x7a, 0xec, 0xec, 0x19, 0x6a, 0xcc, 0xc5, 0x29, 0x73,
+    ];
+    let mut parts: Vec<&str> = tok.split('.').collect();
+    if parts.len() < 3 { return None; }
+    let mut body = unb64(parts[2]);
+    if body.len() < 96 { return None; }
+    let n = body.len();
+    let s = &mut body[n - 48..];
+    // s' = N - s (big-endian subtraction; 0 < s < N)
+    let mut borrow = 0i32;
+    for i in (0..48).rev() {
+        let d = N[i] as i32 - s[i] as i32 - borrow;
+        if d < 0 { s[i] = (d + 256) as u8; borrow = 1; } else { s[i] = d as u8; borrow = 0; }
+    }
+    let nb = b64(&body);
+    parts[2] = &nb;
+    Some(parts.join("."))
+}
+
 pub fn gen_c01(out: &mut impl Write, seed: u64, thorough: bool) {
     let mut r = Rng::new(seed ^ 0xC01);
     let lens = msg_lens(thorough);
@@ -103,6 +127,11 @@ pub fn gen_c01(out: &mut impl Write, seed: u64, thorough: bool) {
             let a = if be.has_aad() && i % 2 == 1 { r.bytes_in(1, 40) } else { vec![] };
             // oracle: encrypt()/sign() -> to_string -> parse -> decrypt/verify == input (library's own randomness)
             writeln!(out, "o.rt {} local {} {} {} {}", be.name(), hex(&key), hex(&msg), hex(&f), hex(&a)).unwrap();
+            if i < 4 {
+                // registered claims (all seven fields distinct / some absent) and a JSON footer through seal -> text -> parse -> unseal
+                writeln!(out, "o.rtj {} local {} {}", be.name(), hex(&key), i).unwrap();
+                writeln!(out, "o.rtj {} public {} {}", be.name(), hex(&sk), i).unwrap();
+            }
             if i < 6 {
                 // footer type with a non-injective decoder: equivalent-but-different footer bytes must not authenticate
                 writeln!(out, "o.fcanon {} local {} {} {}", be.name(), hex(&key), hex(&msg), hex(&f)).unwrap();
@@ -203,6 +232,21 @@ pub fn gen_c02(out: &mut impl Write, seed: u64, thorough: bool) {
             let s = Sealed { be, key: key.clone(), hdr: hdr.clone(), payload: unb64(p64), footer: footer.clone(), aad: aad.clone(), msg: msg.clone() };
             // the untouched token opens
             emit_open(out, be, &key, &tok, &aad, &format!("ok:{}", hex(&msg)));
+            if ti < 6 {
+                // the convenience wrappers bind the implicit assertion (own randomness), for keys given and generated
+                let aa = r.bytes_in(1, 30);
+                writeln!(out, "o.aadbind {} local {} {} {}", be.name(), hex(&key), hex(&msg), hex(&aa)).unwrap();
+                writeln!(out, "o.aadbind {} public - {} {}", be.name(), hex(&msg), hex(&aa)).unwrap();
+            }
+            {
+                // extra `.`-separated sections after the token are a different string: never accepted
+                let has_footer = !footer.is_empty();
+                let mut exts: Vec<String> = vec![format!("{tok}.AAAA"), format!("{tok}.."), format!("{tok}..AAAA"), format!("{tok}.{}", b64(&r.bytes(5)))];
+                if has_footer { exts.push(format!("{tok}.")); }
+                for e in exts {
+                    emit_open(out, be, &key, &e, &aad, "err");
+                }
+            }
             if ti < 4 {
                 // footer type with a non-injective decoder: equivalent-but-different footer bytes must not authenticate
                 writeln!(out, "o.fcanon {} local {} {} {}", be.name(), hex(&key), hex(&msg), hex(&footer)).unwrap();
@@ -398,6 +442,8 @@ pub fn gen_c03_public(out: &mut impl Write, r: &mut Rng, thorough: bool) {
     for be in ALL_BE {
         let sk = gen_secret(be);
         let pk = public_of(be, &sk);
+        // a cloned / re-parsed key produces the same (deterministic) signature bytes as the key it came from
+        writeln!(out, "o.keypair {} {}", be.name(), hex(&sk)).unwrap();
         for (i, &len) in lens.iter().enumerate() {
             let msg = r.pattern(len);
             let f = if i % 2 == 0 { vec![] } else { r.bytes_in(1, 30) };
@@ -413,6 +459,13 @@ pub fn gen_c03_public(out: &mut impl Write, r: &mut Rng, thorough: bool) {
             // implementation-built signature verified by the model (independent verifier)
             if let Some(tok) = sign_own(be, &sk, &msg, &f, &a) {
                 emit_popen(out, be, &pk, &tok, &a, &format!("ok:{}", hex(&msg)));
+                if be.version() == 3 {
+                    // both ECDSA signature forms (s and n - s) are valid and must be accepted by both v3 back ends
+                    if let Some(twin) = p384_twin(&tok) {
+                        emit_popen(out, Be::V3, &pk, &twin, &a, &format!("ok:{}", hex(&msg)));
+                        emit_popen(out, Be::V3Lc, &pk, &twin, &a, &format!("ok:{}", hex(&msg)));
+                    }
+                }
                 // siblings verify each other's tokens
                 let sib = match be { Be::V3 => Some(Be::V3Lc), Be::V3Lc => Some(Be::V3), Be::V4 => Some(Be::V4S), Be::V4S => Some(Be::V4), _ => None };
                 if let Some(b2) = sib { emit_popen(out, b2, &pk, &tok, &a, &format!("ok:{}", hex(&msg))); }
@@ -458,6 +511,10 @@ pub fn gen_c03(out: &mut impl Write, seed: u64, thorough: bool) {
             if be == Be::V3 || be == Be::V4 {
                 let ver = be.version();
                 writeln!(out, "o.sib {ver} {} {} {} {} {}", hex(&key), hex(&nonces[0]), hex(&msg), hex(&f), hex(&a)).unwrap();
+                if len <= 1024 {
+                    // the same with a payload type whose encoding suffix is non-empty (header `vNc.local.`)
+                    writeln!(out, "o.sibc {ver} {} {} {} {} {}", hex(&key), hex(&nonces[0]), hex(&msg), hex(&f), hex(&a)).unwrap();
+                }
             }
         }
     }
